@@ -1,7 +1,7 @@
 (* C12 — consumer group: every observable behaviour of the LTS (on the repaired tree: all of them; on
    the pinned tree: those avoiding the racy close) is accepted by the observer automaton Grp.ostep. *)
 From Coq Require Import List Arith Bool Lia.
-From SV Require Import C12.Lts C12.LtsProofs C12.Tac C12.Group C12.GroupProofs C12.GroupInv1 C12.GroupInv2 C12.GroupSafety.
+From SV Require Import C12.Lts C12.LtsProofs C12.Tac C12.Group C12.GroupProofs C12.GroupInv_01 C12.GroupInv_02 C12.GroupSafety.
 Import ListNotations.
 
 Module GrpSim.
